@@ -445,6 +445,23 @@ func run(c *mc.Ctx) {
 	})
 	// pairs on one keep-alive connection
 	rp := reducedProgs()
+	if c.Thorough() {
+		// pairs over every program of the full list with a boundary-relevant size and no handler-side close
+		seen := map[string]bool{}
+		for _, p := range progs {
+			if p.Close || !(p.Size == 0 || p.Size == 1 || p.Size == 4097 || p.Size == 8193) || (p.Body == BHijack && len(p.Ops) > 2) {
+				continue
+			}
+			if p.Status != 200 && p.Status != 204 && p.Status != 304 && p.Status != 404 {
+				continue
+			}
+			k := fmt.Sprintf("%+v", p)
+			if !seen[k] {
+				seen[k] = true
+				rp = append(rp, p)
+			}
+		}
+	}
 	c.Extra("reduced_programs", len(rp))
 	firstReqs := []Req{{Method: "GET"}, {Method: "HEAD"}, {Method: "POST"}, {Method: "GET", V10: true, KA10: true}}
 	secondReqs := []Req{{Method: "GET"}, {Method: "HEAD"}, {Method: "GET", Close: true}}
@@ -467,7 +484,9 @@ func run(c *mc.Ctx) {
 		}
 	})
 	if c.Thorough() {
-		// triples over the reduced set (GET only)
+		// triples over the small reduced set (GET only)
+		rp = reducedProgs()
+		n = len(rp)
 		c.ParallelFor(n*n*n, func(i int) {
 			w := getW()
 			defer func() { pool <- w }()
